@@ -69,11 +69,10 @@ func conversionCollectionToList(ety cty.Type, conv conversion) conversion {
 // dynamic placeholders in it replaced by the corresponding parts of the input
 // collection's element type.
 func emptyCollectionElementType(inEty, wantEty cty.Type) cty.Type {
-	wantEty = wantEty.WithoutOptionalAttributesDeep()
 	if wantEty.HasDynamicTypes() {
-		return dynamicReplace(inEty, wantEty)
+		wantEty = dynamicReplace(inEty, wantEty)
 	}
-	return wantEty
+	return wantEty.WithoutOptionalAttributesDeep()
 }
 
 // conversionCollectionToSet returns a conversion that will apply the given
